@@ -74,6 +74,7 @@ func init() {
 			}
 			return nil
 		},
+		"vConcurrent": func(fr *frame, a []value) value { return nil }, // native only: runs f in n goroutines under -race
 		"vIsSymbolic": func(fr *frame, a []value) value { return true },
 		"vFail": func(fr *frame, a []value) value {
 			fr.i.assertProp(false, a[0].(string))
